@@ -164,6 +164,11 @@ def job_dbo(job):
 
 def _uf(name, pos=True):
     def f(*args):
+        from ..shims.np_shim import SymArray
+        arrs = [a for a in args if isinstance(a, SymArray)]
+        if arrs:
+            n = len(arrs[0])
+            return SymArray([f(*[(a.d[j] if isinstance(a, SymArray) else a) for a in args]) for j in range(n)], "f8")
         return simp(T.mkUF(name, [P(a) for a in args], pos))
     f.__name__ = name
     return f
